@@ -1,8 +1,8 @@
 (* The rule stores of the searcher model of C04 (Searcher/Model.v: base_add, rstore, estore)
    ARE the key sets of the DictStore database of RuleDB/Model.v: one call of RuleDBBase.add
    in the searcher model and in the two-database model do the same to the class database and
-   to the two key sets.  This makes the C04 theorems about what a search hands to ruledb.add
-   (C04_recorded_from_table = add_pre) applicable to the histories of C14. *)
+   to the two key sets.  One step only: RuleDB/SearchHist.v iterates it over the whole run of the
+   searcher model (every run produces an add_hist history, each call made under add_pre). *)
 From Coq Require Import ZArith List Bool Lia.
 From CSS Require Import Base.PyList ClassDB.Model Searcher.Model RuleDB.Model RuleDB.StoreProofs.
 Import ListNotations.
